@@ -1,4 +1,5 @@
 from props_common import TRUSTED_COMMON, VIEW_RULE, views_harness
+import value_common as _vc
 
 def _store(name, kind, modes, quick, thorough):
     return {"name": name, "src": "store.cpp", "flags": ["-O0", f"-DPTR_KIND={kind}"], "modes": modes, "programs": {"quick": quick, "thorough": thorough}, "driver": "mmdrv_store"}
@@ -30,11 +31,16 @@ PROP = {
         _store("store_fancy2", 2, ["c05", "c07"], 3200, 160000),
         _algos("algos_fancy1", 1, 4800, 240000),
         _algos("algos_fancy2", 2, 4800, 240000),
+        # ---- owning arrays (value worker): the C04/C06 histories of harness/value.cpp over multi::array<T, D, fancy_alloc<T>>, whose
+        # ---- allocator hands out fancy::xptr<T> offsets into one arena; oracle = mmdrv_value, answers must equal the raw build's
+        _vc.value_harness(["int", "str+full", "int+c06+full", "str+c06"], 800, 64000, name="value_fancy1", extra_flags=["-DPTR_KIND=1"], opt=["-O0"]),
+        _vc.value_harness(["int", "str+full", "int+c06+full", "str+c06"], 800, 64000, name="value_fancy2", extra_flags=["-DPTR_KIND=2"], opt=["-O0"]),
     ],
     "trusted_base": TRUSTED_COMMON + ["harness/common/fancy_ptr.hpp: the offset pointer (no conversion to/from T*) and its bounds-tracking variant (for store.cpp / algos.cpp the tracked storage is the union of the program's root arrays, int and long cells, guard cells excluded)",
                                       "for the store / algos streams the oracle is the one of C05 / C07 / C03 (driver mmdrv_store; for C03 the reference computed in the harness on std::vector of independent values)"],
-    "assumptions": ["the programs replayed over the pointer types are those of C01/C02/C19 (views, iterators, elements ranges; harness/views.cpp), C05/C07 (assignment, fill, swap, comparisons; harness/store.cpp) and C03 (std:: algorithms; harness/algos.cpp); owning arrays keep std::allocator (raw pointers) — they take part as sources / operands / saved values next to fancy-pointer views, arrays with fancy allocator pointers and the C04/C06 programs are not replayed over fancy pointers",
+    "assumptions": ["the programs replayed over the pointer types are those of C01/C02/C19 (views, iterators, elements ranges; harness/views.cpp), C05/C07 (assignment, fill, swap, comparisons; harness/store.cpp) and C03 (std:: algorithms; harness/algos.cpp); owning arrays keep std::allocator (raw pointers) — they take part as sources / operands / saved values next to fancy-pointer views, in those streams; arrays with a fancy-pointer allocator are covered by the value_fancy streams",
                     "sort / stable_sort / partial_sort / nth_element on ROWS (D >= 2) of a fancy-pointer view do not compile on the unpatched library (no operator< between the saved owning array over T* and a view over another pointer type; repair in fixes/C11-hetero-less.patch): the harness detects this at compile time and generates those cases only when the library provides the operator",
+                    "owning arrays with a fancy allocator: the C04/C06 histories of harness/value.cpp are replayed over multi::array<T, D, fancy_alloc<T>> (allocator pointer = offset pointer; live blocks registered with the tracking pointer; value_fancy1 / value_fancy2, oracle mmdrv_value)",
                     "pointer arithmetic beyond one-past-the-end (inherent in end() of strided views) is not counted; only dereferences are bounds-checked"],
     "rule": VIEW_RULE + "; each program runs over raw T*, a minimal offset pointer and a bounds-tracking pointer; all three answer streams must equal the model's stream; the tracking pointer reports every dereference outside the root's storage (an OOB-DEREF line, which the model never prints); in addition the C05 / C07 programs (tools/props/C05.py STORE_RULE) and the C03 algorithm cases (tools/props/C03.py rule) run over the two fancy pointers against the same model stream as their raw-pointer builds",
     "level_text": "Theorems: every view operation, begin()/end() iterator and elements() position is affine in the base pointer (translation of the base translates every computed pointer and changes nothing else), so interpreting offsets in any lawful pointer type commutes with all operations, and with C01.reachable_in_bounds every dereference stays inside the storage. That the C++ templates use only the pointer's own arithmetic is validated by replaying the programs of C01/C02/C19 (views, iterators, elements()), C05/C07 (deep assignment, fill, swap, element_moved, ==, !=, <, <=, >, >= between views, array_refs and raw-pointer owning arrays, int and long elements) and C03 (20 std:: algorithms on rows and elements()) over a minimal offset pointer and a bounds-tracking pointer against the same model stream as the raw-pointer build; the tracking pointer reports every dereference outside the arrays' storage.",
